@@ -484,6 +484,10 @@ pub fn check_text<L: Language>(text: &str) -> Result<(bool, bool), String> {
     Ok((any_ok, tokenizes_invalid))
 }
 
+pub fn run_text_case(c: &TextCase, obs: &mut Obs) -> Result<(), String> {
+    run_text(c, obs)
+}
+
 fn run_text(c: &TextCase, obs: &mut Obs) -> Result<(), String> {
     let (ok, tok_invalid) = crate::with_lang!(c.lang, L => check_text::<L>(&c.text))?;
     obs.cmp(3);
